@@ -483,6 +483,16 @@ let handle (line : string) : string =
           | "CA" -> finish (); ms := mstep !ms MConnect; sel := curc ()
           | "CF" -> finish (); ms := mstep !ms MConnectFail
           | "SEL" -> let c = next_int t in if c + 1 <= curc () then sel := c + 1
+          | "BB" -> (* a race the model does not resolve: the observation of such a case is judged without the model *)
+                    let _ = next t in let k = next_int t in let h = next_n t in
+                    finish (); apply_peer !sel PeerBad;
+                    for j = 0 to k - 1 do
+                      let c = curc () in
+                      let i = int_of_nat (cst c).nw in
+                      let g = !nsends in
+                      sends := (g, (c, i)) :: !sends; incr nsends; errs := g :: !errs;
+                      apply_send (Register (N.add h (N.of_nat (nat_of_int j))))
+                    done
           | "P" -> let h = next_n t in apply_peer !sel (Peer h)
           | "PS" -> let h = next_n t in let _ = next t in apply_peer !sel (Peer h)
           | "PG" -> let h = next_n t in let _ = next t in let _ = next t in apply_peer !sel (Peer h)
